@@ -17,12 +17,16 @@ use std::marker::PhantomData;
 use std::panic::AssertUnwindSafe;
 
 use winter_air::{proof::Proof, Air, FieldExtension, ProofOptions};
-use winter_crypto::{hashers::{Blake3_256, Rp64_256}, DefaultRandomCoin, ElementHasher, Hasher};
-use winter_math::{fields::{f128, f64, CubeExtension, QuadExtension}, ExtensibleField, FieldElement, StarkField};
+use winter_crypto::{hashers::{Blake3_256, Rp62_248, Rp64_256, RpJive64_256}, DefaultRandomCoin, ElementHasher, Hasher};
+use winter_math::{fields::{f128, f62, f64, CubeExtension, QuadExtension}, ExtensibleField, FieldElement, StarkField};
 use winter_prover::{Prover, Trace};
 use winter_utils::{Deserializable, Serializable, SliceReader};
 use winter_verifier::{verify, AcceptableOptions};
-use wf_harness::{airfam::*, catch, coinrec::{self, RecordingCoin}, hex_bytes, jstr, prng::Rng, silence_panics, toy::ToyHasher};
+use wf_harness::{airfam::*, catch, coinrec::{self, RecordingCoin}, hex_bytes, jstr, lagfam::{self, LagAir, LagProver, LagTrace}, prng::Rng, silence_panics, toy::ToyHasher};
+
+#[path = "../noncanon.rs"]
+#[allow(dead_code)]
+mod noncanon;
 
 // ================================================================================================ wire-format dissector
 /// One component of the serialized proof: `[start, end)` is the body, `pfx` the (offset, width) of its little-endian
@@ -133,11 +137,12 @@ impl<H: ElementHasher> ElementHasher for LoggingHasher<H> {
 #[derive(Default)]
 struct Stats { mutants: usize, parse_err: usize, rejected: usize, same_content: usize, accepted_diff: usize, panics: usize, alt_nonce: usize, infeasible: usize }
 
-struct Case<B: StarkField> { spec: Spec, opts: ProofOptions, bytes: Vec<u8>, proof: Proof, pi: PubInputs<B>, desc: String, meta: Vec<u8> }
+struct Case<B: StarkField> { spec: Spec, opts: ProofOptions, bytes: Vec<u8>, proof: Proof, pi: PubInputs<B>, desc: String, meta: Vec<u8>, hname: String }
 
 trait Fld: StarkField + ExtensibleField<2> + ExtensibleField<3> + 'static { const NAME: &'static str; }
 impl Fld for f64::BaseElement { const NAME: &'static str = "f64"; }
 impl Fld for f128::BaseElement { const NAME: &'static str = "f128"; }
+impl Fld for f62::BaseElement { const NAME: &'static str = "f62"; }
 
 // ---- a prover whose trace carries metadata (TraceInfo::meta is proof content: it is serialized in the context) ----
 struct MetaTrace<B: StarkField> { inner: FamTrace<B>, info: winter_air::TraceInfo }
@@ -173,7 +178,9 @@ impl<B: Fld, H: ElementHasher<BaseField = B> + Send + Sync> Prover for MetaProve
 
 /// What a case generator is asked for (None = free choice).
 #[derive(Clone, Default)]
-struct Want { ext: Option<FieldExtension>, layers: Option<usize>, aux: Option<bool>, grind: Option<bool>, min_domain: usize, many_queries: bool, meta: Vec<u8>, big_remainder: bool, no_preverify: bool }
+struct Want { ext: Option<FieldExtension>, layers: Option<usize>, aux: Option<bool>, grind: Option<bool>, min_domain: usize, many_queries: bool, meta: Vec<u8>, big_remainder: bool, no_preverify: bool,
+              /// the all-zero trace (Spec::constant_trace); with an auxiliary segment: two columns, the second all zero
+              constant: bool }
 
 fn num_layers(lde: usize, blowup: usize, fold: usize, rem: usize) -> usize {
     let max_rem = (rem + 1) * blowup; let (mut d, mut k) = (lde, 0);
@@ -195,6 +202,7 @@ where H: ElementHasher<BaseField = B> + Send + Sync {
         for d in spec.degs.iter_mut() { *d = (*d).min(blowup as u32).max(1); }
         spec.exemptions = 1;
         match want.aux { Some(true) => { if spec.aux_width == 0 { spec.aux_width = 1 + r.below(2) as usize; spec.aux_rands = 1 + r.below(2) as usize; } }, Some(false) => { spec.aux_width = 0; spec.aux_rands = 0; }, None => {} }
+        if want.constant { spec.constant_trace = true; if spec.aux_width > 0 { spec.aux_width = 2; } }
         let ext = want.ext.unwrap_or_else(|| *r.pick(&[FieldExtension::None, FieldExtension::None, FieldExtension::Quadratic, if B::NAME == "f64" { FieldExtension::Cubic } else { FieldExtension::Quadratic }]));
         // big_remainder: a remainder of 8 coefficients, so that R + c * prod(x - x_pos) over 3..6 positions fits
         let fold = if want.big_remainder { 2 } else { *r.pick(&[2usize, 4, 8]) };
@@ -234,7 +242,7 @@ where H: ElementHasher<BaseField = B> + Send + Sync {
         }
         let desc = format!("field={} hasher={} w={} n={} degs={:?} aux={}/{} blowup={} ext={:?} fold={} rem={} q={} grind={} meta={} seed={} bytes={}",
             B::NAME, hname, spec.width, spec.n(), spec.degs, spec.aux_width, spec.aux_rands, blowup, ext, fold, rem, q, grind, hex_bytes(&want.meta), spec.seed, bytes.len());
-        return Some(Case { spec, opts, bytes, proof, pi, desc, meta: want.meta.clone() });
+        return Some(Case { spec, opts, bytes, proof, pi, desc, meta: want.meta.clone(), hname: hname.to_string() });
     }
     None
 }
@@ -310,6 +318,8 @@ where H: ElementHasher<BaseField = B> + Send + Sync {
     let parsed = catch(AssertUnwindSafe(|| Proof::from_bytes(mutant)));
     let p2 = match parsed { Err(_) => { st.panics += 1; return; } Ok(Err(_)) => { st.parse_err += 1; return; } Ok(Ok(p)) => p };
     if p2 == c.proof { st.same_content += 1; if std::env::var("C03_SHOW_SAME").is_ok() { eprintln!("same-decoded {}: {}", class, what); } return; }
+    // alternative byte encodings of the same digest (Rescue digests are field elements and their readers reduce): outside the claim
+    if same_up_to_digest_encoding(c, mutant) { st.same_content += 1; if std::env::var("C03_SHOW_SAME").is_ok() { eprintln!("same-digests {}: {}", class, what); } return; }
     // layout-only metadata: FRI partition count (excluded by the property when it maps queried positions to the same leaves)
     {
         let mut a = p2.clone(); let b = c.proof.clone();
@@ -347,6 +357,116 @@ where H: ElementHasher<BaseField = B> + Send + Sync {
             if out.iter().any(|l| l.contains(&format!("\"kind\":{}", jstr(&format!("{}|{}", class, kind))))) { return; }
             out.push(format!("{{\"what\":{},\"input\":{},\"expected\":\"rejected or parse error\",\"actual\":\"accepted\",\"class\":{},\"kind\":{},\"proof_hex\":{}}}",
                 jstr(&format!("accepted mutant with different decoded content: {}: {}", class, what)), jstr(&c.desc), jstr(class), jstr(&format!("{}|{}", class, kind)), jstr(&hex_bytes(mutant))));
+        }
+    }
+}
+
+/// offsets of all digests of a serialized proof (commitments and the nodes of every batch Merkle proof)
+fn digest_offsets(bytes: &[u8], lay: &Layout, dl: usize) -> Vec<usize> {
+    let c = lay.get("commitments");
+    let mut v: Vec<usize> = (0..(c.end - c.start) / dl).map(|i| c.start + i * dl).collect();
+    for s in lay.segs.iter().filter(|s| s.name.ends_with(".paths")) { v.extend(noncanon::path_digests(bytes, s.start, s.end, dl)); }
+    v
+}
+
+/// do the two byte strings differ only in the ENCODING of digest limbs (same residues)?  Decided on the wire format,
+/// with the harness' own reduction, for hashers whose digests are field elements
+fn same_up_to_digest_encoding<B: Fld>(c: &Case<B>, mutant: &[u8]) -> bool {
+    let Some((f, limbs)) = noncanon::digest_field(&c.hname) else { return false };
+    if mutant.len() != c.bytes.len() { return false; }
+    let (Some(l0), Some(l1)) = (layout_of(c, &c.bytes), layout_of(c, mutant)) else { return false };
+    if l0.segs.len() != l1.segs.len() || l0.segs.iter().zip(l1.segs.iter()).any(|(a, b)| a.start != b.start || a.end != b.end) { return false; }
+    let dl = f.elem_len(limbs);
+    let (o0, o1) = (digest_offsets(&c.bytes, &l0, dl), digest_offsets(mutant, &l1, dl));
+    if o0 != o1 { return false; }
+    let (mut a, mut b) = (c.bytes.clone(), mutant.to_vec());
+    for &o in &o0 { f.normalise(&mut a, o, limbs); f.normalise(&mut b, o, limbs); }
+    a == b
+}
+
+// ================================================================================================ non-canonical element encodings
+/// element-bearing components of the wire format: (class name, element offsets, field of the words, words per element)
+fn element_regions<B: Fld>(bytes: &[u8], lay: &Layout, ext: usize, hname: &str) -> Vec<(String, Vec<usize>, noncanon::Fp, usize)> {
+    let f = noncanon::fp(B::NAME);
+    let mut v: Vec<(String, Vec<usize>, noncanon::Fp, usize)> = Vec::new();
+    for s in &lay.segs {
+        let n = s.name.as_str();
+        if s.end <= s.start { continue; }
+        if n == "ood.trace" || n == "ood.lagrange" { v.push((n.to_string(), noncanon::run_elems(s.start + 1, s.end, &f, ext), f, ext)); }
+        else if n == "ood.evals" || n == "fri.remainder" || n == "cq.values" || n == "tq1.values" { v.push((n.to_string(), noncanon::run_elems(s.start, s.end, &f, ext), f, ext)); }
+        else if n.starts_with("fri") && n.ends_with(".values") { v.push(("fri.values".to_string(), noncanon::run_elems(s.start, s.end, &f, ext), f, ext)); }
+        else if n == "tq0.values" { v.push((n.to_string(), noncanon::run_elems(s.start, s.end, &f, 1), f, 1)); }
+    }
+    if let Some((df, limbs)) = noncanon::digest_field(hname) {
+        let dl = df.elem_len(limbs);
+        let c = lay.get("commitments");
+        v.push(("digest.commitments".into(), (0..(c.end - c.start) / dl).map(|i| c.start + i * dl).collect(), df, limbs));
+        for s in lay.segs.iter().filter(|s| s.name.ends_with(".paths")) {
+            let offs = noncanon::path_digests(bytes, s.start, s.end, dl);
+            if !offs.is_empty() { v.push(("digest.paths".into(), offs, df, limbs)); }
+        }
+    }
+    v.retain(|x| !x.1.is_empty());
+    v
+}
+
+/// `noncanonical:<component>:<kind>:<field>`: ONE base-field word (first / middle / last element, every limb of an
+/// extension element) of every element-bearing component of an accepted proof overwritten with the modulus, modulus + 1,
+/// all ones, modulus + original value.  The last one is the same residue in another encoding: a changed proof (the
+/// property excludes alternative encodings of DIGESTS only), which must be refused like the others.
+fn noncanonical<B: Fld, H>(c: &Case<B>, stats: &mut BTreeMap<String, Stats>, out: &mut Vec<String>)
+where H: ElementHasher<BaseField = B> + Send + Sync {
+    let lay = match layout_of(c, &c.bytes) { Some(l) => l, None => return };
+    let ext = c.opts.field_extension().degree() as usize;
+    for (name, elems, f, deg) in element_regions::<B>(&c.bytes, &lay, ext, &c.hname) {
+        let tag = if name.starts_with("digest.") { c.hname.clone() } else { B::NAME.to_string() };
+        let (ms, infeasible) = noncanon::mutants(&c.bytes, &name, &elems, &f, deg);
+        for (_, kind) in infeasible { note_infeasible(stats, &format!("noncanonical:{}:{}:{}", name, kind, tag)); }
+        for m in ms {
+            judge::<B, H>(c, &m.bytes, &format!("noncanonical:{}:{}:{}", name, m.kind, tag), format!("{} element {} ({}) limb {} := {}", name, m.elem, m.pos, m.limb, m.kind), stats, out);
+        }
+    }
+}
+
+/// the same for an accepted proof of the Lagrange-kernel AIR (harness/src/lagfam.rs): the only proofs whose OOD frame
+/// carries Lagrange kernel states.  The rest of C03 keeps such AIRs out of scope; this class needs only the oracle.
+fn noncanonical_lagrange<B: Fld, H>(hname: &str, ext: FieldExtension, stats: &mut BTreeMap<String, Stats>, out: &mut Vec<String>)
+where H: ElementHasher<BaseField = B> + Send + Sync {
+    let (log_n, aw, nr) = (3u32, 2usize, 1usize);
+    let opts = ProofOptions::new(4, 4, 0, ext, 2, 1);
+    let prover = LagProver::<B, H, DefaultRandomCoin<H>>::new(opts.clone(), aw);
+    let proof = match catch(AssertUnwindSafe(|| prover.prove(LagTrace::<B>::new(log_n, aw, nr)))) { Ok(Ok(p)) => p, _ => { note_infeasible(stats, "noncanonical:ood.lagrange"); return } };
+    let _ = lagfam::take_uses();
+    let acc = AcceptableOptions::OptionSet(vec![opts.clone()]);
+    let ok = matches!(catch(AssertUnwindSafe(|| verify::<LagAir<B>, H, DefaultRandomCoin<H>>(proof.clone(), (), &acc))), Ok(Ok(())));
+    let _ = lagfam::take_uses();
+    if !ok { HONEST_REJECTED.with(|c| *c.borrow_mut() += 1); return; }
+    let bytes = proof.to_bytes();
+    let Some(lay) = dissect(&bytes, proof.context.to_bytes().len(), 2) else { return };
+    let desc = format!("field={} hasher={} lagrange-kernel AIR n={} aux={}/{} ext={:?} bytes={}", B::NAME, hname, 1 << log_n, aw, nr, ext, bytes.len());
+    println!("nc-config {}", desc);
+    for (name, elems, f, deg) in element_regions::<B>(&bytes, &lay, ext.degree() as usize, hname) {
+        let tag = if name.starts_with("digest.") { hname.to_string() } else { B::NAME.to_string() };
+        let (ms, _) = noncanon::mutants(&bytes, &name, &elems, &f, deg);
+        for m in ms {
+            let class = format!("noncanonical:{}:{}:{}", name, m.kind, tag);
+            if !CLASS_FILTER.with(|f| { let f = f.borrow(); f.is_empty() || class.contains(f.as_str()) }) { continue; }
+            let st = stats.entry(class.clone()).or_default();
+            st.mutants += 1;
+            let p2 = match catch(AssertUnwindSafe(|| Proof::from_bytes(&m.bytes))) { Err(_) => { st.panics += 1; continue; } Ok(Err(_)) => { st.parse_err += 1; continue; } Ok(Ok(p)) => p };
+            if p2 == proof { st.same_content += 1; continue; }
+            let v = catch(AssertUnwindSafe(|| verify::<LagAir<B>, H, DefaultRandomCoin<H>>(p2, (), &acc)));
+            let _ = lagfam::take_uses();
+            match v {
+                Err(_) => st.panics += 1,
+                Ok(Err(_)) => st.rejected += 1,
+                Ok(Ok(())) => {
+                    st.accepted_diff += 1;
+                    let what = format!("{} element {} ({}) limb {} := {}", name, m.elem, m.pos, m.limb, m.kind);
+                    out.push(format!("{{\"what\":{},\"input\":{},\"expected\":\"rejected or parse error\",\"actual\":\"accepted\",\"class\":{},\"kind\":{},\"proof_hex\":{}}}",
+                        jstr(&format!("accepted mutant with different decoded content: {}: {}", class, what)), jstr(&desc), jstr(&class), jstr(&format!("{}|lagrange", class)), jstr(&hex_bytes(&m.bytes))));
+                }
+            }
         }
     }
 }
@@ -834,7 +954,7 @@ fn corr(seed: u64, n: usize) {
         let want = Want {
             // the cubic extension exists for f64 only (even i)
             ext: Some(if i % 14 == 6 { FieldExtension::Cubic } else if (i / 2) % 2 == 0 { FieldExtension::None } else { FieldExtension::Quadratic }),
-            layers: Some((i / 4) % 3), aux: Some((i / 12) % 2 == 1), grind: Some((i / 24) % 2 == 1), min_domain: 16, many_queries: (i / 48) % 2 == 1, meta: vec![], big_remainder: false, no_preverify: true,
+            layers: Some((i / 4) % 3), aux: Some((i / 12) % 2 == 1), grind: Some((i / 24) % 2 == 1), min_domain: 16, many_queries: (i / 48) % 2 == 1, meta: vec![], big_remainder: false, no_preverify: true, constant: false,
         };
         let res = match (i % 2, (i / 96) % 3) {
             (0, 0) => make_case::<f64::BaseElement, Blake3_256<f64::BaseElement>>(&mut r, 1 << 20, "blake3_256", &want).map(|c| { if i % 6 == 0 { let sh = observe::<_, Blake3_256<f64::BaseElement>>(&c).0; policy_probe::<_, Blake3_256<f64::BaseElement>>(&c, &mut Rng::new(seed ^ i as u64), &sh); } (c.desc.clone(), observe::<_, Blake3_256<f64::BaseElement>>(&c)) }),
@@ -886,6 +1006,39 @@ fn main() {
             1 => if let Some(c) = make_case::<f128::BaseElement, Blake3_256<f128::BaseElement>>(&mut r, 1 << 16, "blake3_256", &want) { descs.push(c.desc.clone()); adaptive::<f128::BaseElement, Blake3_256<f128::BaseElement>>(&c, &mut r, &mut stats, &mut out); },
             _ => if let Some(c) = make_case::<f64::BaseElement, ToyHasher<f64::BaseElement>>(&mut r, 1 << 16, "toy", &want) { descs.push(c.desc.clone()); adaptive::<f64::BaseElement, ToyHasher<f64::BaseElement>>(&c, &mut r, &mut stats, &mut out); },
         }
+    }
+    // ---- element-level family: dedicated accepted proofs (all three base fields, every extension degree, the three Rescue
+    // digests, all-zero traces so that "modulus + original value" fits the word) and the Lagrange-kernel AIR
+    {
+        use FieldExtension::{Cubic as X3, None as X1, Quadratic as X2};
+        type B64 = f64::BaseElement; type B128 = f128::BaseElement; type B62 = f62::BaseElement;
+        let mut r = Rng::new(seed ^ 0x0C03_E1E5);
+        macro_rules! nc {
+            ($b:ty, $h:ty, $hn:expr, $ext:expr, $aux:expr, $constant:expr) => {{
+                let want = Want { ext: Some($ext), aux: Some($aux), constant: $constant, min_domain: 16, ..Default::default() };
+                match make_case::<$b, $h>(&mut r, 1 << 16, $hn, &want) {
+                    Some(c) => { println!("nc-config {} constant={}", c.desc, $constant); noncanonical::<$b, $h>(&c, &mut stats, &mut out); }
+                    None => println!("nc-noconfig {} {} {:?} aux={} constant={}", <$b as Fld>::NAME, $hn, $ext, $aux, $constant),
+                }
+            }};
+        }
+        nc!(B64, Blake3_256<B64>, "blake3_256", X1, false, true);
+        nc!(B64, Blake3_256<B64>, "blake3_256", X3, false, true);
+        nc!(B64, Blake3_256<B64>, "blake3_256", X2, true, true);
+        nc!(B64, Blake3_256<B64>, "blake3_256", X3, true, false);
+        nc!(B64, Rp64_256, "rp64_256", X2, true, false);
+        nc!(B64, RpJive64_256, "rpjive64_256", X1, false, false);
+        nc!(B128, Blake3_256<B128>, "blake3_256", X1, false, true);
+        nc!(B128, Blake3_256<B128>, "blake3_256", X2, false, true);
+        nc!(B128, Blake3_256<B128>, "blake3_256", X2, true, true);
+        nc!(B128, Blake3_256<B128>, "blake3_256", X2, true, false);
+        nc!(B62, Blake3_256<B62>, "blake3_256", X3, true, false);
+        nc!(B62, Blake3_256<B62>, "blake3_256", X1, false, false);
+        nc!(B62, Rp62_248, "rp62_248", X2, true, false);
+        noncanonical_lagrange::<B64, Blake3_256<B64>>("blake3_256", X2, &mut stats, &mut out);
+        noncanonical_lagrange::<B64, Rp64_256>("rp64_256", X1, &mut stats, &mut out);
+        noncanonical_lagrange::<B128, Blake3_256<B128>>("blake3_256", X2, &mut stats, &mut out);
+        noncanonical_lagrange::<B62, Blake3_256<B62>>("blake3_256", X3, &mut stats, &mut out);
     }
     for l in &out { println!("{}", l); }
     for d in &descs { println!("config {}", d); }
